@@ -534,6 +534,19 @@ func c15TypedJudge(tc c15Typed) (clause, detail string) {
 		if err := prop.Decode(via2); err != nil || !c15Equal(direct, via2) {
 			return "typed-prop-decode-differs", fmt.Sprintf("Prop.Decode: %v %s", err, c15Dump(via2))
 		}
+		// XML names are case-sensitive: a sibling whose name differs from the target's only in letter case,
+		// placed BEFORE it, is another property
+		if name, ok := prop.Raw[1].XMLName(); ok && strings.ToUpper(name.Local) != name.Local {
+			decoy := fmt.Sprintf(`<Q:%s xmlns:Q=%q>decoy</Q:%s>`, strings.ToUpper(name.Local), name.Space, strings.ToUpper(name.Local))
+			var prop3 internal.Prop
+			if err := xml.Unmarshal([]byte(`<A:prop xmlns:A="DAV:">`+decoy+tc.XML+`</A:prop>`), &prop3); err != nil {
+				return "typed-capture-error", err.Error()
+			}
+			via3 := tc.New()
+			if err := prop3.Decode(via3); err != nil || !c15Equal(direct, via3) {
+				return "typed-prop-decode-picks-case-variant", fmt.Sprintf("Prop.Decode next to %s: %v %s", decoy, err, c15Dump(via3))
+			}
+		}
 	}
 	return "", ""
 }
